@@ -92,6 +92,44 @@ check_msg(Ctx &c, int s, nng_msg *m, const char *how)
 	nng_msg_free(m);
 }
 
+// The model keeps a *set* of candidate queues (a shrinking resize may legally keep either end); after an unsubscribe
+// purge the candidates can differ in length, so emptiness is a property of the set.
+static bool
+all_empty(const Ctx &c)
+{
+	for (auto &q : c.cand)
+		if (!q.empty())
+			return false;
+	return true;
+}
+static bool
+none_empty(const Ctx &c)
+{
+	for (auto &q : c.cand)
+		if (q.empty())
+			return false;
+	return true;
+}
+static const std::deque<Body> &
+longest(const Ctx &c)
+{
+	size_t b = 0;
+	for (size_t i = 1; i < c.cand.size(); i++)
+		if (c.cand[i].size() > c.cand[b].size())
+			b = i;
+	return c.cand[b];
+}
+// the real queue turned out to be empty: only the empty candidates survive
+static void
+narrow_to_empty(Ctx &c)
+{
+	std::vector<std::deque<Body>> keep;
+	for (auto &q : c.cand)
+		if (q.empty())
+			keep.push_back(q);
+	c.cand = keep;
+}
+
 static void
 finish_pending(World &W, int s)
 {
@@ -177,7 +215,7 @@ exec_c05(const vcase *vc)
 				nm++;
 				if (x.pending && !x.done) {
 					// a receive is waiting: model says it gets this message directly
-					VR_CHECK(x.cand.size() == 1 && x.cand[0].empty(), "harness:pending-nonempty", "pending with non-empty model");
+					VR_CHECK(all_empty(x), "harness:pending-nonempty", "pending with non-empty model");
 				}
 				for (auto &q : x.cand) {
 					if (x.pending) {
@@ -258,16 +296,17 @@ exec_c05(const vcase *vc)
 			int      rv = do_recv(W, s, &m);
 			VR_CHECK(vs_now() - t0 < 5, "C05:nb-recv-slow", "non-blocking receive took %llu virtual ms",
 			    (unsigned long long) (vs_now() - t0));
-			if (c.cand[0].empty()) {
-				if (rv == 0) {
-					Body got((const char *) nng_msg_body(m), nng_msg_len(m));
-					vr_fail("C05:unexpected-delivery", "slot %d received %s but the model queue is empty (no matching subscription / purged / dropped)",
-					    s, hex(got).c_str());
-				}
+			if (rv != 0) {
 				VR_CHECK(rv == NNG_EAGAIN, "C05:recv-empty-code", "receive on empty queue -> %d", rv);
+				VR_CHECK(!none_empty(c), "C05:missing-delivery", "slot %d: receive returned %d but the model holds %zu message(s), head %s", s, rv, longest(c).size(),
+				    hex(longest(c).front()).c_str());
+				narrow_to_empty(c);
 			} else {
-				VR_CHECK(rv == 0, "C05:missing-delivery", "slot %d: receive returned %d but the model holds %zu message(s), head %s", s, rv,
-				    c.cand[0].size(), hex(c.cand[0].front()).c_str());
+				if (all_empty(c)) {
+					Body got((const char *) nng_msg_body(m), nng_msg_len(m));
+					vr_fail("C05:unexpected-delivery", "slot %d received %s but the model queue is empty (no matching subscription / purged / dropped)", s,
+					    hex(got).c_str());
+				}
 				check_msg(c, s, m, "receive");
 				vr_tag("delivered");
 			}
@@ -284,11 +323,12 @@ exec_c05(const vcase *vc)
 				nng_ctx_recv(c.ctx, c.aio);
 			vs_settle();
 			c.pending = true;
-			if (!c.cand[0].empty()) {
-				VR_CHECK(c.done == 1, "C05:arecv-not-immediate", "async receive with %zu queued message(s) did not complete", c.cand[0].size());
+			if (c.done == 1) {
+				VR_CHECK(!all_empty(c), "C05:arecv-spurious", "async receive completed (%d) although nothing is queued", nng_aio_result(c.aio));
 				finish_pending(W, s);
 			} else {
-				VR_CHECK(c.done == 0, "C05:arecv-spurious", "async receive completed (%d) although nothing is queued", nng_aio_result(c.aio));
+				VR_CHECK(!none_empty(c), "C05:arecv-not-immediate", "async receive with %zu queued message(s) did not complete", longest(c).size());
+				narrow_to_empty(c);
 				vr_tag("pending_recv");
 			}
 		} else if (n == "rbuf") {
@@ -343,11 +383,12 @@ exec_c05(const vcase *vc)
 			int      rv = do_recv(W, s, &m);
 			if (rv != 0) {
 				VR_CHECK(rv == NNG_EAGAIN, "C05:recv-empty-code", "final drain -> %d", rv);
-				VR_CHECK(c.cand[0].empty(), "C05:missing-delivery", "slot %d: final drain ended but the model still holds %zu message(s), head %s",
-				    s, c.cand[0].size(), hex(c.cand[0].front()).c_str());
+				VR_CHECK(!none_empty(c), "C05:missing-delivery", "slot %d: final drain ended but the model still holds %zu message(s), head %s", s, longest(c).size(),
+				    hex(longest(c).front()).c_str());
+				narrow_to_empty(c);
 				break;
 			}
-			if (c.cand[0].empty()) {
+			if (all_empty(c)) {
 				Body got((const char *) nng_msg_body(m), nng_msg_len(m));
 				vr_fail("C05:unexpected-delivery", "slot %d: final drain produced %s, model queue is empty", s, hex(got).c_str());
 			}
